@@ -143,6 +143,9 @@ def run_check(pid, tier, seed):
         outs = {}
         errs = []
         timed_out = []
+        skipped = []
+        stop_early = {'v': False}
+        STOP_AT_FIRST = bool(os.environ.get('VERIF_STOP_AT_FIRST'))
 
         def runner():
             while True:
@@ -155,16 +158,33 @@ def run_check(pid, tier, seed):
                        json.dumps(ch), str(budget), out]
                 env = dict(os.environ, PYTHONHASHSEED='0',
                            PYTHONPATH=(os.environ['VERIF_SRC'] + ':' if os.environ.get('VERIF_SRC') else '') + ROOT)
+                if stop_early['v']:
+                    skipped.append((check['name'], ch))
+                    continue
                 try:
-                    p = subprocess.run(cmd, cwd=ROOT, env=env, capture_output=True, text=True,
-                                       timeout=budget * 1.5 + 120)
-                    if p.returncode != 0 or not os.path.exists(out):
-                        errs.append('worker %s%r rc=%s: %s' % (check['name'], ch[:2], p.returncode, p.stderr[-1500:]))
+                    proc = subprocess.Popen(cmd, cwd=ROOT, env=env, stdout=subprocess.PIPE, stderr=subprocess.PIPE, text=True)
+                    t_end = time.monotonic() + budget * 1.5 + 120
+                    while True:
+                        try:
+                            so, se = proc.communicate(timeout=2)
+                            break
+                        except subprocess.TimeoutExpired:
+                            if stop_early['v'] or time.monotonic() > t_end:
+                                proc.kill()
+                                proc.communicate()
+                                raise
+                    if proc.returncode != 0 or not os.path.exists(out):
+                        errs.append('worker %s%r rc=%s: %s' % (check['name'], ch[:2], proc.returncode, se[-1500:]))
                     else:
                         outs[i] = json.load(open(out))
+                        if STOP_AT_FIRST and any(r.get('violations') for r in outs[i]['results']):
+                            stop_early['v'] = True       # (evaluation of seeded changes: one counterexample is enough)
                 except subprocess.TimeoutExpired:
-                    # not an error of the harness and not a verdict: these partitions are inconclusive
-                    timed_out.append((check['name'], ch))
+                    if stop_early['v']:
+                        skipped.append((check['name'], ch))
+                    else:
+                        # not an error of the harness and not a verdict: these partitions are inconclusive
+                        timed_out.append((check['name'], ch))
 
         ths = [threading.Thread(target=runner) for _ in range(min(NCPU, len(jobs)))]
         for t in ths:
